@@ -25,7 +25,7 @@ ALLOWED = {
     "address": {"operator", "variable"},
 }
 LEX = re.compile(
-    r"""(?P<comment>\(\*.*?\*\))|(?P<string>'(?:\$.|[^'$])*'|"(?:\$.|[^"$])*")|(?P<address>%[IQMiqm](?:\*|[XBWDLxbwdl]?[0-9]+(?:\.[0-9]+)*))"""
+    r"""(?P<comment>\(\*.*?\*\)|//[^\r\n]*(?:\r\n|\n)?)|(?P<string>'(?:\$.|[^'$])*'|"(?:\$.|[^"$])*")|(?P<address>%[IQMiqm](?:\*|[XBWDLxbwdl]?[0-9]+(?:\.[0-9]+)*))"""
     r"""|(?P<number>(?:16\#[0-9A-Fa-f_]+|8\#[0-7_]+|2\#[01_]+|[0-9][0-9_]*(?:\.[0-9_]+)?(?:[eE][+-]?[0-9_]+)?))"""
     r"""|(?P<word>[A-Za-z_][A-Za-z0-9_]*)|(?P<op>:=|=>|<>|<=|>=|\*\*|\.\.|[-+*/=<>&])|(?P<punct>[()\[\]{},;:.\#])"""
     r"""|(?P<ws>[ \t\r\n\f]+)|(?P<bad>.)""", re.S)
@@ -52,7 +52,8 @@ def blank_oscat(text):
 
 def classify(text):
     """[(line, char(chars), char(utf16), length(chars), length(utf16), class, lexeme)], has_invalid"""
-    text = blank_oscat(text)
+    written = text
+    text = blank_oscat(text)        # same length in characters: positions are those of the text as written
     out = []
     invalid = False
     line = 0
@@ -61,7 +62,7 @@ def classify(text):
         kind = m.lastgroup
         lexeme = m.group(0)
         start = m.start()
-        prefix = text[line_start:start]
+        prefix = written[line_start:start]
         if kind == "bad":
             invalid = True
         elif kind not in ("ws",):
@@ -121,6 +122,9 @@ def judge(text, result):
     for lx in lexemes:
         # character and length in UTF-16 code units: the position encoding of LSP when nothing else is negotiated
         by_pos[(lx[0], lx[2], lx[4])] = lx
+        if lx[5] == "comment" and lx[6].startswith("//"):
+            # a line comment runs to the end of its line; whether the range takes the line break with it is not demanded
+            by_pos[(lx[0], lx[2], u16(lx[6].rstrip("\r\n")))] = lx
         if lx[5] == "comment" and "\n" in lx[6]:
             # one token per line of the comment is an accepted alternative
             pass
@@ -149,7 +153,9 @@ def judge(text, result):
 
 TRIVIA = [" ", "  ", "\t", "\n", "\r\n", " \n ", " (* c *) ", "(* c *)", " (* multi\nline *) ", "(* ( *)", "(*x*)(*y*)",
           " (* café ü *) ", "\n\t(* - *)\n", " (**) ", "(***)", " (* multi\r\nline *) ", "  (* a\r\n\r\n b é *) x"[:-2],
-          "(** doc **)", "(* x **)", "\f", " \f ", "\f\n", "(* a\fb *)"]
+          "(** doc **)", "(* x **)", "\f", " \f ", "\f\n", "(* a\fb *)",
+          # line comments (to the end of the line)
+          " // c\n", " // é ü\r\n", "\n// x (* y\n", " //\n", "\t// a // b\n  ", " // 日本 🙂\n"]
 
 
 def make_doc(rng, bad01):
@@ -193,7 +199,10 @@ def shard(shard_i, nshards, payload):
             if i % 6 == 1:
                 # an OSCAT description block (free text between two key comments) at the top or between declarations, its
                 # closing key at the start of a line, indented, or on the line of the text
-                body = rng.choice(["any text", "version 1.0\n  second line", "it's 100% free ?", "", "a\nb\nc", "x := (1 + ;"])
+                body = rng.choice(["any text", "version 1.0\n  second line", "it's 100% free ?", "", "a\nb\nc", "x := (1 + ;",
+                                   # characters of two, three and four bytes (one and two UTF-16 units) in the free text, also
+                                   # on the line of the closing key and of the code after it
+                                   "é", "größe: 5 µm", "日本語の説明", "ok 🙂 🙂", "é\n日本 🙂"])
                 a_, b_ = rng.choice([("\n", "\n"), ("\n    ", "\n    "), (" ", " "), ("\n", "\n  "), ("\r\n", "\r\n"), ("", "")])
                 block = "%s%s%s%s%s" % (OSCAT_OPEN, a_, body, b_, OSCAT_CLOSE)
                 nls = [m_.start() for m_ in re.finditer("\n", text)]
@@ -216,6 +225,10 @@ def shard(shard_i, nshards, payload):
                 if not classify(text[:k])[1] and text[:k].count("(*") == text[:k].count("*)"):
                     text = text[:k] + rng.choice([" (* x *)", "\n(* a *)\n(* b *)", " (* c *) ", "\n\n(* end *)\n", "(* é *)", ""])
                     kind = "truncated"
+            if i % 9 == 5 and "'" not in text and kind == "valid":
+                # a character string that runs over a line end, and tokens after it further left on their line
+                text += "\nPROGRAM mls\nVAR s : STRING; x : INT; END_VAR\n      s := 'a\nb';x := 1;\nx := 2;\nEND_PROGRAM\n"
+                kind = "multi-line-string"
             if i % 7 == 3:
                 # planted invalid character: the answer must be null
                 # (anywhere; inside a string literal only where it does not follow a '$', since which characters may
